@@ -500,124 +500,211 @@ func r6args(c *core.Ctx, fn *ssa.Function) {
 }
 
 // ---------------------------------------------------------------- R6.count
-func r6count(c *core.Ctx) {
-	const R = "R6.count"
-	c.Rule(R, "security.Count: bit layout (SQN bits 7..0, overflow bits 23..8), setters write exactly their field, AddOne = +1 then mask to 24 bits")
-	cnt := "p0.count"
-	// SQN
-	{
-		fn := mustFunc(c, pSec, "Count.SQN")
-		ba := core.NewBitAnalyzer(fn)
-		v := singleReturn(c, R, fn)
-		if v != nil {
-			b := ba.Bits(v)
-			c.Check(b != nil && len(b) == 8 && b.IsCopy(7, 0, cnt, 0), R, "security.Count.SQN", fn.Pos(), b.Describe(), "SQN() must be bits 7..0 of the counter, is %s", b.Describe())
-		}
+// countEffect: the value of receiver.count after a call of a Count method, as a bit
+// vector over the sources "p0.count" (value before the call), "p1", "p2" (arguments)
+// and "count+1" (the incremented counter, an opaque 32-bit source because the carry
+// chain of an addition is not a bit placement). Successive stores and calls of other
+// Count methods on the same receiver are composed, so the summary does not depend
+// on how the methods are split into helpers. ok=false: not straight-line, or an
+// effect the domain cannot express.
+func countEffect(c *core.Ctx, fn *ssa.Function, depth int) (core.BitVec, bool) {
+	const cnt = "p0.count"
+	if fn == nil || len(fn.Blocks) != 1 || depth > 4 {
+		return nil, false
 	}
-	{
-		fn := mustFunc(c, pSec, "Count.Overflow")
-		ba := core.NewBitAnalyzer(fn)
-		v := singleReturn(c, R, fn)
-		if v != nil {
-			b := ba.Bits(v)
-			c.Check(b != nil && len(b) == 16 && b.IsCopy(15, 0, cnt, 8), R, "security.Count.Overflow", fn.Pos(), b.Describe(), "Overflow() must be bits 23..8 of the counter, is %s", b.Describe())
-		}
-	}
-	{
-		fn := mustFunc(c, pSec, "Count.SetSQN")
-		ba := core.NewBitAnalyzer(fn)
-		v := singleStoreTo(c, R, fn, cnt)
-		if v != nil {
-			b := ba.Bits(v)
-			ok := b != nil && len(b) == 32 && b.IsCopy(7, 0, "p1", 0) && b.IsCopy(31, 8, cnt, 8)
-			c.Check(ok, R, "security.Count.SetSQN", fn.Pos(), b.Describe(), "SetSQN must write bits 7..0 and keep bits 31..8, new value is %s", b.Describe())
-		}
-	}
-	{
-		fn := mustFunc(c, pSec, "Count.SetOverflow")
-		ba := core.NewBitAnalyzer(fn)
-		v := singleStoreTo(c, R, fn, cnt)
-		if v != nil {
-			b := ba.Bits(v)
-			ok := b != nil && len(b) == 32 && b.IsCopy(7, 0, cnt, 0) && b.IsCopy(23, 8, "p1", 0) && (b.IsCopy(31, 24, cnt, 24) || b.IsConst(31, 24, 0))
-			c.Check(ok, R, "security.Count.SetOverflow", fn.Pos(), b.Describe(), "SetOverflow must write bits 23..8 and keep the others, new value is %s", b.Describe())
-		}
-	}
-	{
-		fn := mustFunc(c, pSec, "Count.maskTo24Bits")
-		ba := core.NewBitAnalyzer(fn)
-		v := singleStoreTo(c, R, fn, cnt)
-		if v != nil {
-			b := ba.Bits(v)
-			ok := b != nil && len(b) == 32 && b.IsCopy(23, 0, cnt, 0) && b.IsConst(31, 24, 0)
-			c.Check(ok, R, "security.Count.maskTo24Bits", fn.Pos(), b.Describe(), "maskTo24Bits must keep bits 23..0 and clear 31..24, new value is %s", b.Describe())
-		}
-	}
-	{
-		// AddOne: store count+1, then maskTo24Bits (or a masked store)
-		fn := mustFunc(c, pSec, "Count.AddOne")
-		p := core.NewPather(fn)
-		var seq []string
-		for _, b := range fn.Blocks {
-			for _, in := range b.Instrs {
-				switch x := in.(type) {
-				case *ssa.Store:
-					if p.Path(x.Addr) == cnt {
-						seq = append(seq, "store:"+p.Path(x.Val))
-					}
-				case *ssa.Call:
-					seq = append(seq, "call:"+core.CalleeName(&x.Call)+"("+p.Path(x.Call.Args[0])+")")
+	p := core.NewPather(fn)
+	ba := core.NewBitAnalyzer(fn)
+	state := core.SourceVec(cnt, 32)
+	lastStore := -1
+	for idx, in := range fn.Blocks[0].Instrs {
+		switch x := in.(type) {
+		case *ssa.Store:
+			if p.Path(x.Addr) != cnt {
+				if strings.HasPrefix(p.Path(x.Addr), "p0") {
+					return nil, false
 				}
+				continue
 			}
-		}
-		got := strings.Join(seq, " ; ")
-		ok := len(fn.Blocks) == 1 && (got == "store:("+cnt+"+1) ; call:"+pSec+".Count.maskTo24Bits(p0)" ||
-			got == "store:(("+cnt+"+1)&16777215)")
-		c.Check(ok, R, "security.Count.AddOne", fn.Pos(), got, "AddOne must be count+1 followed by the 24-bit mask (wrap at 2^24), is: %s", got)
-	}
-	{
-		// Get: mask then return count
-		fn := mustFunc(c, pSec, "Count.Get")
-		p := core.NewPather(fn)
-		ba := core.NewBitAnalyzer(fn)
-		masked := false
-		okRet := false
-		for _, b := range fn.Blocks {
-			for _, in := range b.Instrs {
-				switch x := in.(type) {
-				case *ssa.Call:
-					if core.CalleeName(&x.Call) == pSec+".Count.maskTo24Bits" && p.Path(x.Call.Args[0]) == "p0" {
-						masked = true
+			// loads of the counter feeding this store must come after the previous store
+			okOrder := true
+			var walk func(v ssa.Value, d int)
+			walk = func(v ssa.Value, d int) {
+				if d > 12 {
+					return
+				}
+				if ld, isLoad := v.(*ssa.UnOp); isLoad && ld.Op == token.MUL && p.Path(ld.X) == cnt {
+					if core.InstrIndex(ld) < lastStore {
+						okOrder = false
 					}
-				case *ssa.Return:
-					if len(x.Results) == 1 {
-						s := p.Path(x.Results[0])
-						if (s == cnt && masked) || s == "("+cnt+"&16777215)" {
-							okRet = true
-						} else if b := ba.Bits(x.Results[0]); b != nil && len(b) == 32 && b.IsCopy(23, 0, cnt, 0) && b.IsConst(31, 24, 0) {
-							okRet = true
+					return
+				}
+				if ins, isIns := v.(ssa.Instruction); isIns {
+					for _, op := range ins.Operands(nil) {
+						if *op != nil {
+							walk(*op, d+1)
 						}
 					}
 				}
 			}
+			walk(x.Val, 0)
+			if !okOrder {
+				return nil, false
+			}
+			var v core.BitVec
+			if bo, isAdd := x.Val.(*ssa.BinOp); isAdd && bo.Op == token.ADD {
+				k, isK := core.ConstInt(bo.Y)
+				if isK && k == 1 && p.Path(bo.X) == cnt {
+					// count + 1: an opaque source; only valid on the untouched counter
+					for i, b := range state {
+						if b.Kind != core.BSrc || b.Src != cnt || b.Idx != i || b.Neg || b.More != "" {
+							return nil, false
+						}
+					}
+					state = core.SourceVec("count+1", 32)
+					lastStore = idx
+					continue
+				}
+			}
+			v = ba.Bits(x.Val)
+			if v == nil || len(v) != 32 {
+				return nil, false
+			}
+			state = core.SubstSource(v, cnt, state)
+			lastStore = idx
+		case *ssa.Call:
+			callee := x.Call.StaticCallee()
+			name := core.CalleeName(&x.Call)
+			if callee == nil || !strings.HasPrefix(name, pSec+".Count.") || len(x.Call.Args) == 0 || p.Path(x.Call.Args[0]) != "p0" {
+				if strings.HasPrefix(name, pSec+".Count.") {
+					return nil, false // a Count method on another receiver
+				}
+				continue
+			}
+			eff, ok := countEffect(c, callee, depth+1)
+			if !ok {
+				return nil, false
+			}
+			// substitute the callee's parameters by the argument bits, its old counter by the current state
+			// (the callee's parameter names are made unique first: the state may already hold
+			// bits of the caller's own p1, p2)
+			comp := eff
+			for ai := 1; ai < len(x.Call.Args); ai++ {
+				comp = core.SubstSource(comp, fmt.Sprintf("p%d", ai), core.SourceVec(fmt.Sprintf("@arg%d", ai), 64))
+			}
+			comp = core.SubstSource(comp, cnt, state)
+			for ai := 1; ai < len(x.Call.Args); ai++ {
+				ab := ba.Bits(x.Call.Args[ai])
+				if ab == nil {
+					return nil, false
+				}
+				comp = core.SubstSource(comp, fmt.Sprintf("@arg%d", ai), ab)
+			}
+			state = comp
+			lastStore = idx
 		}
-		c.Check(okRet && len(fn.Blocks) == 1, R, "security.Count.Get", fn.Pos(), "24-bit masked counter", "Get must return the counter masked to 24 bits")
+	}
+	return state, true
+}
+
+func r6count(c *core.Ctx) {
+	const R = "R6.count"
+	c.Rule(R, "security.Count: SQN = bits 7..0, overflow = bits 23..8; every setter writes exactly its field; AddOne is +1 modulo 2^24; Get is the 24-bit counter (effects composed through helper calls)")
+	const cnt = "p0.count"
+	method := func(n string) *ssa.Function { return mustFunc(c, pSec, "Count."+n) }
+	// --- readers
+	{
+		fn := method("SQN")
+		if v := singleReturn(c, R, fn); v != nil {
+			b := core.NewBitAnalyzer(fn).Bits(v)
+			c.Check(b != nil && len(b) == 8 && b.IsCopy(7, 0, cnt, 0), R, "security.Count.SQN", fn.Pos(), b.Describe(), "SQN() must be bits 7..0 of the counter, is %s", b.Describe())
+		}
 	}
 	{
-		// Set = SetOverflow(p1) + SetSQN(p2)
-		fn := mustFunc(c, pSec, "Count.Set")
-		p := core.NewPather(fn)
-		var seq []string
-		for _, ci := range core.Calls(fn) {
-			var as []string
-			for _, a := range ci.Common().Args {
-				as = append(as, p.Path(a))
-			}
-			seq = append(seq, shortName(core.CalleeName(ci.Common()))+"("+strings.Join(as, ",")+")")
+		fn := method("Overflow")
+		if v := singleReturn(c, R, fn); v != nil {
+			b := core.NewBitAnalyzer(fn).Bits(v)
+			c.Check(b != nil && len(b) == 16 && b.IsCopy(15, 0, cnt, 8), R, "security.Count.Overflow", fn.Pos(), b.Describe(), "Overflow() must be bits 23..8 of the counter, is %s", b.Describe())
 		}
-		got := strings.Join(seq, " ; ")
-		ok := len(fn.Blocks) == 1 && (got == "security.Count.SetOverflow(p0,p1) ; security.Count.SetSQN(p0,p2)" || got == "security.Count.SetSQN(p0,p2) ; security.Count.SetOverflow(p0,p1)")
-		c.Check(ok, R, "security.Count.Set", fn.Pos(), got, "Set(overflow, sqn) must be SetOverflow(overflow)+SetSQN(sqn), is: %s", got)
+	}
+	// --- writers: final counter as a function of (old counter, arguments)
+	top := func(b core.BitVec) bool { return b.IsCopy(31, 24, cnt, 24) || b.IsConst(31, 24, 0) }
+	clean := map[string]bool{} // the method leaves bits 31..24 zero whatever they were
+	for _, m := range []struct {
+		name string
+		ok   func(b core.BitVec) bool
+		want string
+	}{
+		{"SetSQN", func(b core.BitVec) bool { return b.IsCopy(7, 0, "p1", 0) && b.IsCopy(23, 8, cnt, 8) && top(b) }, "write bits 7..0 from the argument and keep bits 23..8"},
+		{"SetOverflow", func(b core.BitVec) bool { return b.IsCopy(7, 0, cnt, 0) && b.IsCopy(23, 8, "p1", 0) && top(b) }, "write bits 23..8 from all 16 bits of the argument and keep bits 7..0"},
+		{"Set", func(b core.BitVec) bool { return b.IsCopy(7, 0, "p2", 0) && b.IsCopy(23, 8, "p1", 0) && top(b) }, "write the SQN to bits 7..0 and all 16 bits of the overflow to bits 23..8"},
+	} {
+		fn := method(m.name)
+		b, ok := countEffect(c, fn, 0)
+		if !ok {
+			c.SoftUndecided("security.Count.%s: effect on the counter not expressible as a bit placement (not straight-line, or arithmetic on the counter)", m.name)
+			continue
+		}
+		c.Check(m.ok(b), R, "security.Count."+m.name, fn.Pos(), b.Describe(), "%s must %s; new value is %s", m.name, m.want, b.Describe())
+		clean[m.name] = b.IsConst(31, 24, 0)
+	}
+	// --- AddOne: +1 modulo 2^24
+	addOK := false
+	{
+		fn := method("AddOne")
+		if b, ok := countEffect(c, fn, 0); ok {
+			good := b.IsCopy(23, 0, "count+1", 0) && b.IsConst(31, 24, 0)
+			c.Check(good, R, "security.Count.AddOne", fn.Pos(), b.Describe(), "AddOne must leave (count+1) masked to 24 bits (wrap at 2^24); new value is %s", b.Describe())
+			addOK, clean["AddOne"] = true, good
+		} else {
+			// decomposed form: sqn' = SQN()+1; overflow' = Overflow() (+1 when sqn' == 0); Set(overflow', sqn')
+			p := core.NewPather(fn)
+			sq := "call:" + fnCountSQN + "(p0)"
+			ov := "call:" + fnCountOvf + "(p0)"
+			ev := func(in ssa.Instruction) string {
+				if ci, isCall := in.(*ssa.Call); isCall && core.CalleeName(&ci.Call) == fnCountSet && p.Path(ci.Call.Args[0]) == "p0" {
+					return "set(" + p.Path(ci.Call.Args[1]) + "," + p.Path(ci.Call.Args[2]) + ")"
+				}
+				if st, isSt := in.(*ssa.Store); isSt && strings.HasPrefix(p.Path(st.Addr), "p0") {
+					return "store"
+				}
+				return ""
+			}
+			br := func(v ssa.Value) string { return p.Path(v) }
+			paths, okP := core.EventPathsR(fn, p, ev, br, 1, 100)
+			wrapT := "((" + sq + "+1)==0)=T set((" + ov + "+1),(" + sq + "+1))"
+			wrapF := "((" + sq + "+1)==0)=F set(" + ov + ",(" + sq + "+1))"
+			wrapT2 := "((" + sq + "+1)!=0)=F set((" + ov + "+1),(" + sq + "+1))"
+			wrapF2 := "((" + sq + "+1)!=0)=T set(" + ov + ",(" + sq + "+1))"
+			seen := map[string]bool{}
+			for _, pa := range paths {
+				seen[strings.Join(pa, " ")] = true
+			}
+			if okP && len(seen) == 2 && ((seen[wrapT] && seen[wrapF]) || (seen[wrapT2] && seen[wrapF2])) {
+				c.Ok(R, "security.Count.AddOne", fn.Pos(), "SQN+1 (mod 256), overflow+1 (mod 65536) exactly when the SQN wrapped to 0, stored through Set")
+				addOK, clean["AddOne"] = true, clean["Set"]
+			}
+		}
+		if !addOK {
+			c.SoftUndecided("security.Count.AddOne: neither (count+1) masked to 24 bits nor the SQN/overflow carry form")
+		}
+	}
+	// --- Get: the 24-bit counter, by masking or because no writer can leave bits 31..24 set
+	{
+		fn := method("Get")
+		p := core.NewPather(fn)
+		v := singleReturn(c, R, fn)
+		if v != nil && len(fn.Blocks) == 1 {
+			eff, okE := countEffect(c, fn, 0) // Get may normalise the counter before returning it
+			rb := core.NewBitAnalyzer(fn).Bits(v)
+			if okE && rb != nil && p.Path(v) == cnt {
+				rb = eff // returns the (possibly masked) stored counter
+			}
+			masked := rb != nil && len(rb) == 32 && rb.IsCopy(23, 0, cnt, 0) && rb.IsConst(31, 24, 0)
+			plain := rb != nil && len(rb) == 32 && rb.IsCopy(31, 0, cnt, 0)
+			invariant := clean["Set"] && clean["SetSQN"] && clean["SetOverflow"] && clean["AddOne"]
+			c.Check(masked || (plain && invariant), R, "security.Count.Get", fn.Pos(), "24-bit counter",
+				"Get must return the counter with bits 31..24 zero: either by masking, or unmasked when every writer (Set, SetSQN, SetOverflow, AddOne) provably clears bits 31..24; returns %s (writers clearing the top octet: %v)", rb.Describe(), clean)
+		}
 	}
 }
 
